@@ -1,0 +1,6 @@
+//go:build !verif
+
+package mqtt
+
+// verifAt is a no-op without the verif build tag.
+func verifAt(string, *Client) {}
